@@ -93,6 +93,12 @@ func OvsToNativeAtomic(basicType string, ovsElem interface{}) (interface{}, erro
 	switch basicType {
 	case TypeReal, TypeString, TypeBoolean:
 		naType := NativeTypeFromAtomic(basicType)
+		// an integer literal beyond 2^53 is decoded to an int (see
+		// unmarshalExact): in a real column it is the nearest real, as it
+		// always was
+		if i, ok := ovsElem.(int); ok && basicType == TypeReal && beyondFloat(i) {
+			ovsElem = float64(i)
+		}
 		if reflect.TypeOf(ovsElem) != naType {
 			return nil, NewErrWrongType("OvsToNativeAtomic", naType.String(), ovsElem)
 		}
